@@ -479,8 +479,9 @@ impl ClusterActor {
             "reading partition locally"
         );
 
-        // If start_sequence is beyond watermark, no events to return
-        if start_sequence > watermark {
+        // If start_sequence is at or beyond the watermark (the number of confirmed
+        // events), no events to return
+        if start_sequence >= watermark {
             reply_sender.send(Ok(PartitionEvents {
                 events: Vec::new(),
                 has_more: false,
@@ -525,8 +526,12 @@ impl ClusterActor {
                             break 'iter;
                         }
 
-                        // Check if event is beyond effective end sequence
-                        if event.partition_sequence > effective_end_sequence {
+                        // Check if event is beyond effective end sequence, or not below
+                        // the watermark (sequences below it are confirmed, the one at it
+                        // is not)
+                        if event.partition_sequence > effective_end_sequence
+                            || event.partition_sequence >= watermark
+                        {
                             break 'iter;
                         }
 
@@ -669,7 +674,7 @@ impl ClusterActor {
 
                         // Check if event is beyond watermark (safety check - uses
                         // partition_sequence)
-                        if event.partition_sequence > watermark {
+                        if event.partition_sequence >= watermark {
                             break 'iter;
                         }
 
